@@ -15,7 +15,7 @@ import gen_harness
 import k3
 from vlib import CACHE, DRIVER, ENV, ensure_harness, harness_hash, model_hash, repo_hash
 
-SOURCES = ["vec", "slice", "vecref", "range"]
+SOURCES = ["vec", "slice", "vecref", "range", "iterx", "iteru", "deque"]
 
 
 def lazy_chains(source):
@@ -83,9 +83,10 @@ def gen_case(r, cid, source, chain, tier):
     ops = ["N:%d" % nt, "%s:%d" % cs] + stages + ["%s:%d" % cs, "N:%d" % nt]
     style = r.choice(STYLES)
     sched = gen_sched(r, style, nt, n)
-    line = "id=%d shape=%s known=1 in=%s ops=%s term=%s avail=%d sched=%s fuel=0 macro=1" % (
+    line = "id=%d shape=%s known=@K@ in=%s ops=%s term=%s avail=%d sched=%s fuel=0 macro=1" % (
         cid, gen_harness.shape_name(source, chain), ",".join(map(str, inp)), ";".join(ops), term, k3.AVAIL,
         ",".join(map(str, sched)))
+    line = line.replace("@K@", "1" if gen_harness.SOURCES[source][2] else "0")
     return line, style, inp
 
 
